@@ -69,6 +69,10 @@ RULE = (
     "argument, operator-declared headers, proxy_proof_required; per app many requests (behaviour of every callback, "
     "Accept value, credential headers). Bodies: hand-written corpus + generated JSON of every shape (envelopes with "
     "every field type, nesting 1..200000 open/closed, inside fields), UTF-16/32, invalid UTF-8, HTML, empty, huge. "
+    "Whole client on a 401 response through http_connect: VGI-Auth-Reason header value (absent, each code, foreign code, "
+    "other case, padded, empty, non-ASCII, list, very long) x body kind (envelope with / without / unknown / null reason, "
+    "framework JSON, non-object JSON, HTML, text, empty, invalid UTF-8, deep) x header-key spelling x call path (unary, "
+    "stream init, stream with header, exchange), then generated bodies x generated header values. "
     "A case is distinct by (tree, configuration, behaviours, Accept) resp. body bytes; non-trivial when a callback is "
     "consulted resp. always for bodies"
 )
@@ -1017,15 +1021,171 @@ def flush_bodies(ctx: Any) -> None:
     pend, _BODY_Q = _BODY_Q, []
     if ctx.driver is None or not pend:
         return
-    res = ctx.driver.batch([("C21.parse", a) for _, a, _ in pend])
-    for (case, _a, impl), m in zip(pend, res):
+    res = ctx.driver.batch([("C21.parse", e[1]) for e in pend])
+    for (case, _a, impl, *what), m in zip(pend, res):
         mm: dict[str, Any] = {"k": m["k"]}
         if m["k"] == "err":
             mm.update(reason=j2s(m["reason"]), detail=j2s(m["detail"]), hint=j2s(m["hint"]))
         else:
             mm["e"] = m["e"]
         if mm != impl:
-            ctx.mismatch(case, mm, impl, "_parse_unauthorized: model vs implementation")
+            ctx.mismatch(case, mm, impl, what[0] if what else "_parse_unauthorized: model vs implementation")
+
+
+# ---- the whole client on a 401 *response*: status 401 + arbitrary headers + arbitrary body, through http_connect ----
+
+REASON_HEADERS: list[str | None] = (
+    [None] + CLOSED + ["mfa_required", "from_the_future", "token_revoked", "Expired-Credential", "EXPIRED_CREDENTIAL",
+                       "Missing_Credential", "", " ", " expired_credential ", "expired_credential\t", "expir\u00ebd_credential",
+                       "\u00e9", "expired_credential, unauthorized", "null", "0", "x" * 600])
+HEADER_KEYS = ["vgi-auth-reason", "VGI-Auth-Reason"]
+RESP_BODIES: list[tuple[str, list]] = [
+    ("envelope", B(b'{"error":"unauthorized","reason":"expired_credential","detail":"token expired"}')),
+    ("envelope-hint", B(b'{"error":"unauthorized","reason":"proxy_required","detail":"d","proxy_hint":"check the proxy"}')),
+    ("envelope-no-reason", B(b'{"error":"unauthorized","detail":"d"}')),
+    ("envelope-unknown-reason", B(b'{"error":"unauthorized","reason":"from_the_future","detail":"d"}')),
+    ("envelope-null-reason", B(b'{"error":"unauthorized","reason":null,"detail":"d"}')),
+    ("envelope-empty", B(b"{}")),
+    ("framework-json", B(b'{"title": "401 Unauthorized", "description": "x"}')),
+    ("json-nondict", B(b'["expired_credential"]')),
+    ("html", B(b"<!DOCTYPE html><html><body>Sign in</body></html>")),
+    ("html", B(b"  <HTML><body>Step-up required</body></html>")),
+    ("text", B(b"gateway says no")),
+    ("text", B(b"expired_credential")),
+    ("empty", B(b"")),
+    ("empty", B(b" \n")),
+    ("badutf8", B(b"\xff\xfe denied")),
+    ("deep", B((b"[", 20000))),
+]
+CLIENT_PATHS = ["unary", "stream", "stream-header", "exchange"]
+
+
+class _Gateway:
+    """An in-process client whose every POST is answered by a scripted 401 (what a gateway / a newer server may send)."""
+
+    def __init__(self, inner: Any) -> None:
+        self._inner = inner
+        self.body = b""
+        self.headers: dict[str, str] = {}
+
+    def __getattr__(self, name: str) -> Any:
+        return getattr(self._inner, name)
+
+    def post(self, *a: Any, **k: Any) -> Any:
+        from vgi_rpc.http._testing import _SyncTestResponse
+
+        return _SyncTestResponse(401, self.body, dict(self.headers))
+
+
+_E2E: dict = {}
+
+
+def _e2e() -> dict:
+    if not _E2E:
+        from vgi_rpc.conformance import ConformanceService, ConformanceServiceImpl
+        from vgi_rpc.http import http_connect, make_sync_client
+        from vgi_rpc.rpc import RpcServer
+
+        def reject(req: Any) -> Any:
+            raise ValueError("nope")
+
+        gw = _Gateway(make_sync_client(RpcServer(ConformanceService, ConformanceServiceImpl()), authenticate=reject, token_key=b"k" * 32))
+        cm = http_connect(ConformanceService, "http://testserver", client=gw)
+        proxy = cm.__enter__()
+        _E2E.update(gw=gw, cm=cm, proxy=proxy, calls={
+            "unary": lambda: proxy.echo_int(value=1),
+            "stream": lambda: proxy.produce_n(count=1),
+            "stream-header": lambda: proxy.produce_with_header(count=1),
+            "exchange": lambda: proxy.exchange_scale(factor=1.0),
+        })
+    return _E2E
+
+
+def run_client401(ctx: Any, path: str, tag: str, segs: list, hkey: str, hval: str | None, extra: dict | None = None) -> None:
+    """One call through the real client against a 401 response with this body and these headers.
+    O: the call raises AuthenticationError — nothing else — with a closed-set reason (the envelope's known reason when
+       it has one; otherwise `unauthorized` or, by spec section 6, the reason header's value when that is in the set).
+    K: the error equals the model's parse of the body."""
+    from vgi_rpc.http._unauthorized import AuthenticationError, AuthReason
+
+    E = _e2e()
+    body = segs_bytes(segs)
+    headers = dict(extra or {})
+    if hval is not None:
+        headers[hkey] = hval
+    E["gw"].body, E["gw"].headers = body, headers
+    case = {"kind": "client401", "path": path, "segs": segs, "hkey": hkey, "hval": hval, "extra": extra}
+    hclass = ("absent" if hval is None else "in-set" if hval in CLOSED else "empty" if not hval.strip() else
+              "in-set-padded" if hval.strip() in CLOSED else "non-ascii" if not hval.isascii() else "out-of-set")
+    ctx.case(case, nontrivial=True, tags=(f"e2e:path:{path}", f"e2e:body:{tag}", f"e2e:header:{hclass}"))
+    try:
+        r = E["calls"][path]()
+        ctx.fail(case, f"C21:client-call-401-not-raised:{path}", f"the call returned {type(r).__name__} on a 401")
+        return
+    except AuthenticationError as e:
+        err = e
+    except BaseException as e:
+        ctx.fail(case, f"C21:client-call-raised:{type(e).__name__}:{path}",
+                 f"a 401 (body {tag}, {hkey}: {hval!r:.40}) surfaced as {type(e).__name__}: {str(e)[:80]} — not AuthenticationError")
+        return
+    if not isinstance(err.reason, AuthReason) or err.reason.value not in CLOSED:
+        ctx.fail(case, f"C21:client-call-reason-not-closed:{path}", f"reason {err.reason!r}")
+        return
+    try:
+        v = json.loads(body)
+    except (ValueError, RecursionError):
+        v = None
+    if isinstance(v, dict) and isinstance(v.get("reason"), str) and v["reason"] in CLOSED:
+        allowed = {v["reason"]}
+    elif isinstance(v, dict) and "reason" in v:
+        allowed = {"unauthorized"}  # section 4.3: an unrecognised reason is `unauthorized`
+    else:
+        allowed = {"unauthorized"} | ({hval.strip()} if hval is not None and hval.strip() in CLOSED else set())  # section 6 fallback
+    if err.reason.value not in allowed:
+        ctx.fail(case, f"C21:client-call-reason:{'|'.join(sorted(allowed))}->{err.reason.value}",
+                 f"body {tag}, {hkey}: {hval!r:.40} gave {err.reason.value}")
+    if ctx.driver is None:
+        return
+    lo, problem = loads_outcome(body)
+    if problem is not None:
+        return
+    text = body.decode(errors="replace")
+    impl = {"k": "err", "reason": err.reason.value, "detail": desurrogate(err.detail), "hint": desurrogate(err.proxy_hint)}
+    _BODY_Q.append((case, {"loads": lo, "text": text if text.isascii() else s2j(text)}, impl,
+                    "client call on a 401 response vs the model's parse of its body"))
+    if len(_BODY_Q) >= 200:
+        flush_bodies(ctx)
+
+
+def run_client_calls(ctx: Any) -> None:
+    rng = ctx.rng
+    # exhaustive: reason-header value x body kind (x header-key spelling x call path, rotated so each pair sees all)
+    n = 0
+    for hi, hval in enumerate(REASON_HEADERS):
+        for bi, (tag, segs) in enumerate(RESP_BODIES):
+            for pi, path in enumerate(CLIENT_PATHS):
+                if ctx.tier != "thorough" and not ctx.deep and (hi + bi + pi) % 2:
+                    continue
+                run_client401(ctx, path, tag, segs, HEADER_KEYS[(hi + bi + pi) % 2 if ctx.tier != "thorough" else n % 2], hval,
+                              {"content-type": ["application/json", "text/html; charset=utf-8", "text/plain"][bi % 3]})
+                n += 1
+    # random: generated bodies x generated header values
+    for _ in range(ctx.budget(400, 8000)):
+        tag, segs = gen_body(rng)
+        if sum(len(h) // 2 * c for h, c in segs) > 300000:
+            continue
+        x = rng.random()
+        if x < 0.3:
+            hval: str | None = rng.choice(REASON_HEADERS)
+        elif x < 0.6:
+            base = rng.choice(CLOSED)
+            hval = rng.choice([base.upper(), base.title(), base.replace("_", "-"), base + " ", " " + base, base[:-1], base + "2",
+                               base + "," + rng.choice(CLOSED), base.replace("e", "\u00e9", 1)])
+        else:
+            hval = "".join(rng.choice("abcdefXYZ_- 0\u00e9") for _ in range(rng.randrange(0, 20)))
+        run_client401(ctx, rng.choice(CLIENT_PATHS), tag, segs, rng.choice(HEADER_KEYS), hval,
+                      rng.choice([None, {"cache-control": "no-store"}, {"vgi-auth-proxy-required": "true"}, {"www-authenticate": "Bearer"}]))
+    flush_bodies(ctx)
 
 
 def run_body(ctx: Any, tag: str, segs: list) -> None:
@@ -1333,6 +1493,7 @@ def run(ctx: Any) -> None:
         run_units(ctx, L)
         t1 = time.time()
         run_bodies(ctx)
+        run_client_calls(ctx)
         t2 = time.time()
         run_compositions(ctx, L)
         ctx.note("phase_seconds", {"units": round(t1 - t0, 1), "bodies": round(t2 - t1, 1), "compositions": round(time.time() - t2, 1)})
@@ -1345,7 +1506,10 @@ def replay(ctx: Any, case: dict) -> None:
     prev = logging.root.manager.disable
     logging.disable(logging.CRITICAL)
     try:
-        if case.get("kind") == "body":
+        if case.get("kind") == "client401":
+            run_client401(ctx, case["path"], "replay", case["segs"], case["hkey"], case["hval"], case.get("extra"))
+            flush_bodies(ctx)
+        elif case.get("kind") == "body":
             run_body(ctx, "replay", case["segs"])
             flush_bodies(ctx)
         elif case.get("kind") == "compose":
